@@ -91,6 +91,21 @@ def gen_gross(rng, maxn=12):
         case["suspect"] = seq(sus, False)
     anchors = [F(x) for x in a]
     case["inp"] = series(rng, length(rng, maxn), anchors)
+    if rng.random() < 0.15 and case["fail"]["seq"] and len(case["fail"]["vals"]) == 2:
+        # decimal bounds (exact as float64, NOT representable in float32) against data born as float32: the nearest
+        # float32 to a bound lies strictly on one side of it.  Comparisons only, so float64 evaluation is still exact.
+        import numpy as np
+
+        dec = sorted(rng.sample([0.1, 0.3, 1.1, 2.2, 25.7, 33.3], 4))
+        f64 = [F(d) for d in dec]
+        f32 = [F(float(np.float32(d))) for d in dec]
+        below_above = [F(float(np.nextafter(np.float32(d), np.float32(s)))) for d in dec for s in (-1e9, 1e9)]
+        case["fail"] = seq([f64[0], f64[3]] if rng.random() < 0.5 else [f64[3], f64[0]])
+        if case["suspect"] is not None:
+            case["suspect"] = seq([f64[1], f64[2]])
+        n = length(rng, maxn)
+        case["inp"] = [None if rng.random() < 0.1 else rng.choice(f32 + f32 + below_above + [F(1), F(30)]) for _ in range(n)]
+        case["decimal_f32"] = True
     return case
 
 
@@ -232,6 +247,12 @@ def gen_climatology(rng, maxn=10):
                 a, b = lo, hi
             m["tspan"] = [F(a), F(b)]
             m["period"] = period
+            prev = [q for q in members if q["period"] is not None and q["period"] != period]
+            if prev and rng.random() < 0.5:
+                # same numbers as an earlier member of ANOTHER period kind (month 1..3 next to quarter 1..3)
+                m["tspan"] = list(rng.choice(prev)["tspan"])
+            elif rng.random() < 0.3:
+                m["tspan"] = sorted([F(rng.randint(0, 6)), F(rng.randint(0, 6))])   # small numbers most kinds can take
         v = sorted([around(rng, vanch), around(rng, vanch)])
         m["vspan"] = v
         if rng.random() < 0.6:
